@@ -1,0 +1,27 @@
+// Copyright 2025 BINARY Members
+//
+// Licensed under the Apache License, Version 2.0 (the "License");
+// you may not use this file except in compliance with the License.
+// You may obtain a copy of the License at
+//
+//     http://www.apache.org/licenses/LICENSE-2.0
+//
+// Unless required by applicable law or agreed to in writing, software
+// distributed under the License is distributed on an "AS IS" BASIS,
+// WITHOUT WARRANTIES OR CONDITIONS OF ANY KIND, either express or implied.
+// See the License for the specific language governing permissions and
+// limitations under the License.
+
+//go:build verif
+
+package filter
+
+// VerifDims size of the bitset and number of hash functions (verification harness only)
+func (f *Filter) VerifDims() (m, k int) {
+	return len(f.bitset), len(f.hashFns)
+}
+
+// VerifBits copy of the bitset (verification harness only)
+func (f *Filter) VerifBits() []bool {
+	return append([]bool(nil), f.bitset...)
+}
